@@ -351,7 +351,16 @@ def absorb_new_functions(F, known):
                 if t["k"] == "call" and not b["cleanup"] and not t.get("virtual"):
                     g = next((n for n in callee_names(t) if n in new and n != k), None)
                     if g is not None and len(t["args"]) == F.fns[g]["argc"]:
+                        import cfg as _cfg
+                        kind = _cfg.success_edges(fn, bi)[1]
+                        bo = len(fn["blocks"])
+                        gerr = _cfg.error_exit_blocks(F.fns[g]) if _cfg.is_result_ty(F.fns[g]["locals"][0]["s"]) else ()
                         inline_call(fn, bi, F.fns[g])
+                        if kind in ("try", "plain-return"):
+                            # the helper's Err is propagated unchanged by the caller: the helper's error exits are error exits of the caller
+                            fn["_errx_inlined"] = sorted(set(fn.get("_errx_inlined", ())) | {x + bo for x in gerr})
+                        for cache in ("_errx", "_live", "_defs", "_uses", "_succ", "_pred", "_guards"):
+                            fn.pop(cache, None)
                         for c, cf_ in F.fns.items():
                             if cf_.get("parent") == g:
                                 cf_["parent"] = k
